@@ -79,6 +79,55 @@ func resolveRegAnchors(p *Prog) *regAnchors {
 			}
 		}
 	}
+	// a function that only hands back what a popper returned for its own argument (or nothing at
+	// all) pops the queue on behalf of its caller: de-duplicating two poppers leaves such a wrapper
+	for changed := true; changed; {
+		changed = false
+		for _, fn := range p.Funcs {
+			if fn.Pkg == nil || shortPkg(fn.Pkg.Pkg.Path()) != regPkg || fn.Parent() != nil || ra.poppers[fn] || fn.Blocks == nil || len(findLoops(fn)) > 0 {
+				continue
+			}
+			if fn.Signature.Results().Len() != 1 || typeShort(fn.Signature.Results().At(0).Type()) != "[]string" {
+				continue
+			}
+			ok, n := true, 0
+			for _, b := range fn.Blocks {
+				r, isRet := b.Instrs[len(b.Instrs)-1].(*ssa.Return)
+				if !isRet {
+					continue
+				}
+				var leaves []ssa.Value
+				retLeaves(r.Results[0], map[ssa.Value]bool{}, &leaves)
+				for _, lf := range leaves {
+					switch x := lf.(type) {
+					case *ssa.Call:
+						f := x.Call.StaticCallee()
+						if f == nil || !ra.poppers[f] {
+							ok = false
+							break
+						}
+						for _, a := range x.Call.Args[1:] {
+							if _, isParam := a.(*ssa.Parameter); !isParam {
+								ok = false
+							}
+						}
+						n++
+					case *ssa.Slice:
+						// an empty literal: []string{}
+						if al, isAlloc := x.X.(*ssa.Alloc); !isAlloc || !strings.Contains(al.Type().String(), "[0]string") {
+							ok = false
+						}
+					default:
+						ok = false
+					}
+				}
+			}
+			if ok && n > 0 {
+				ra.poppers[fn] = true
+				changed = true
+			}
+		}
+	}
 	for _, f := range []*ssa.Function{ra.breaker, ra.enqueuer, ra.drainer, ra.dispatcher, ra.opener} {
 		if f != nil {
 			ra.all[f] = true
@@ -520,14 +569,21 @@ func runRegLockstep(c *Ctx, rule string) {
 				}
 				n++
 				P := req.Args[0].String()
-				fromPop := false
+				fromPop, whole := false, false
 				for f := range ra.poppers {
 					if strings.Contains(P, fnKey(f)+"(") {
 						fromPop = true
 					}
+					for _, e := range callsTo(bp, f) {
+						if e.Res != nil && e.Res.String() == P {
+							whole = true
+						}
+					}
 				}
 				if !fromPop {
 					bad = append(bad, "the players of a new table do not come from the waiting queue")
+				} else if !whole {
+					bad = append(bad, "the players taken from the waiting queue are not all handed to the new table: "+P)
 				}
 				pc := bp.storesTo("regulator.Table.PlayerCount")
 				tc := bp.storesTo("regulator.regulator.tableCount")
@@ -557,7 +613,10 @@ func runRegQueue(c *Ctx) {
 	p := c.P
 	ix := p.Index()
 	ws := ix.Writers("regulator.regulator.waitingQueue")
-	c.floor("queue-discipline", "writers of the waiting queue", len(ws), 4)
+	kinds := map[string]bool{}
+	defer func() {
+		c.floor("queue-discipline", "kinds of queue writers (append, pop, remainder)", len(kinds), 3)
+	}()
 	for _, w := range ws {
 		c.touch(fnKey(w))
 		s := regSumm(p, 0)
@@ -577,8 +636,10 @@ func runRegQueue(c *Ctx) {
 					switch {
 					case v.Op == "append" && len(v.Args) == 2 && v.Args[0].String() == "recv.waitingQueue" && strings.HasPrefix(v.Args[1].String(), "param:"):
 						// incoming players appended
+						kinds["append"] = true
 					case v.String() == "slice(recv.waitingQueue, 1, _, _)":
 						// pop-front: the head must be appended to the result on the same path
+						kinds["pop"] = true
 						head := false
 						for k, bv := range ps.Store {
 							if strings.HasPrefix(k, "backedge:") && bv.Op == "append" && len(bv.Args) == 2 && bv.Args[1].String() == "list(recv.waitingQueue[0])" {
@@ -588,21 +649,12 @@ func runRegQueue(c *Ctx) {
 						if !head {
 							bad = append(bad, "the queue's head is dropped without being handed out ("+e.Pos+")")
 						}
-					case strings.HasPrefix(v.String(), "loopval:"):
+					case strings.HasPrefix(v.String(), "loopval:") || func() bool { st, ok := e.Instr.(*ssa.Store); return ok && remainderOnly(st.Val, resolveRegAnchors(p).dispatcher, nil, 0) }():
 						// the undispatched remainder: its sources must be dispatch remainders or the queue itself
+						kinds["remainder"] = true
 						if st, ok := e.Instr.(*ssa.Store); ok {
-							var leaves []ssa.Value
-							retLeaves(st.Val, map[ssa.Value]bool{}, &leaves)
-							for _, lf := range leaves {
-								okLeaf := loadsField(lf, "regulator.regulator.waitingQueue")
-								if ex, isEx := lf.(*ssa.Extract); isEx && ex.Index == 0 {
-									if call, isCall := ex.Tuple.(*ssa.Call); isCall && call.Common().StaticCallee() != nil && call.Common().StaticCallee() == resolveRegAnchors(p).dispatcher {
-										okLeaf = true
-									}
-								}
-								if !okLeaf {
-									bad = append(bad, "the queue is replaced by a value that is neither the queue nor a dispatch remainder ("+e.Pos+")")
-								}
+							if !remainderOnly(st.Val, resolveRegAnchors(p).dispatcher, nil, 0) {
+								bad = append(bad, "the queue is replaced by a value that is neither the queue nor a dispatch remainder ("+e.Pos+")")
 							}
 						}
 					default:
@@ -613,4 +665,56 @@ func runRegQueue(c *Ctx) {
 		}
 		c.check(len(bad) == 0 && n > 0, "queue-discipline", fnKey(w), p.FnPos(w), "writes the queue only by appending incoming players, popping its head into the result, or storing the undispatched remainder", "players can be lost from or duplicated in the queue", uniq(bad, 3)...)
 	}
+}
+
+// remainderOnly: every source of v is the waiting queue itself, the remainder returned by the
+// dispatcher, or what a package-private helper returns from such sources (its parameters are read
+// as the arguments of the call).
+func remainderOnly(v ssa.Value, dispatcher *ssa.Function, bind map[*ssa.Parameter]ssa.Value, depth int) bool {
+	if depth > 4 {
+		return false
+	}
+	var leaves []ssa.Value
+	retLeaves(v, map[ssa.Value]bool{}, &leaves)
+	for _, lf := range leaves {
+		if loadsField(lf, "regulator.regulator.waitingQueue") {
+			continue
+		}
+		switch x := lf.(type) {
+		case *ssa.Extract:
+			if call, ok := x.Tuple.(*ssa.Call); ok && x.Index == 0 && call.Common().StaticCallee() != nil && call.Common().StaticCallee() == dispatcher {
+				continue
+			}
+			return false
+		case *ssa.Parameter:
+			if a, ok := bind[x]; ok {
+				if !remainderOnly(a, dispatcher, nil, depth+1) {
+					return false
+				}
+				continue
+			}
+			return false
+		case *ssa.Call:
+			f := x.Call.StaticCallee()
+			if f == nil || f.Pkg == nil || shortPkg(f.Pkg.Pkg.Path()) != regPkg || f.Blocks == nil {
+				return false
+			}
+			b2 := map[*ssa.Parameter]ssa.Value{}
+			for i, prm := range f.Params {
+				if i < len(x.Call.Args) {
+					b2[prm] = x.Call.Args[i]
+				}
+			}
+			for _, b := range f.Blocks {
+				if r, ok := b.Instrs[len(b.Instrs)-1].(*ssa.Return); ok && len(r.Results) >= 1 {
+					if !remainderOnly(r.Results[0], dispatcher, b2, depth+1) {
+						return false
+					}
+				}
+			}
+		default:
+			return false
+		}
+	}
+	return true
 }
